@@ -27,7 +27,7 @@ PROPS = {
     "C11": dict(modules=["Cvss.Props.IEEE", "Cvss.Props.F64Facts", "Cvss.Props.C11v2", "Cvss.Props.C11v3", "Cvss.Props.C11v4"], ties=[], streams=["score:F"]),
     "C12": dict(modules=["Cvss.Props.C12v2", "Cvss.Props.C12v3", "Cvss.Props.C12v4", "Cvss.Proofs.Score3MonoA_0", "Cvss.Proofs.Score3MonoA_1", "Cvss.Proofs.Score3MonoA_2", "Cvss.Proofs.Score3MonoA_3", "Cvss.Proofs.Score3MonoBT", "Cvss.Proofs.Score3MonoB_0", "Cvss.Proofs.Score3MonoB_1", "Cvss.Proofs.Score3MonoB_2", "Cvss.Proofs.Score3MonoDefs", "Cvss.Proofs.Score3MonoObj", "Cvss.Proofs.Score3MonoSpec", "Cvss.Proofs.Score3MonoStr", "Cvss.Proofs.Mono4All", "Cvss.Proofs.Mono4Bound", "Cvss.Proofs.Mono4Bridge0", "Cvss.Proofs.Mono4Bridge1", "Cvss.Proofs.Mono4Bridge2", "Cvss.Proofs.Mono4Bridge3", "Cvss.Proofs.Mono4Bridge4", "Cvss.Proofs.Mono4Bridge5", "Cvss.Proofs.Mono4BridgeDef", "Cvss.Proofs.Mono4Cover", "Cvss.Proofs.Mono4Cover36", "Cvss.Proofs.Mono4Cover36H", "Cvss.Proofs.Mono4Cover36L", "Cvss.Proofs.Mono4Cover36N", "Cvss.Proofs.Mono4Eff", "Cvss.Proofs.Mono4Lists", "Cvss.Proofs.Mono4P", "Cvss.Proofs.Mono4Pack", "Cvss.Proofs.Mono4Raw", "Cvss.Proofs.Mono4Tab1", "Cvss.Proofs.Mono4Tab2", "Cvss.Proofs.Mono4Tab36", "Cvss.Proofs.Mono4Tab4", "Cvss.Proofs.Mono4Tab5"], ties=[], streams=["score:M"]),
     "C13": dict(modules=["Cvss.Props.C13", "Cvss.Props.GenParsers", "Cvss.Props.ParseTie", "Cvss.Props.C13b", "Cvss.Props.C13v2", "Cvss.Props.C13v3", "Cvss.Props.C13v4"], ties=["Cvss.Props.ParseTie"], streams=["parse"]),
-    "C14": dict(modules=["Cvss.Props.C14"], ties=["Cvss.Props.ParseTie"], streams=["race", "hist", "obj"]),
+    "C14": dict(modules=["Cvss.Props.C14", "Cvss.Props.C14b"], ties=["Cvss.Props.ParseTie"], streams=["race", "hist", "obj"]),
     "C15": dict(modules=["Cvss.Props.C15", "Cvss.Props.IEEE"], ties=[], streams=["rating"]),
     "C16": dict(modules=["Cvss.Props.C16"], ties=[], streams=["obj"]),
     "C17": dict(modules=["Cvss.Props.C17", "Cvss.Props.C17b"], ties=[], streams=["obj", "alloc"]),
@@ -108,7 +108,9 @@ LEVEL_TEXT["C14"] = _lt("proof",
     "(schedule_independent), with an aliasing counter-model showing the theorem is not vacuous. NOT provable in any model here: the Go memory model, sync.Pool's "
     "implementation, unsafe aliasing, the race detector's verdict - covered by testing only (race stream under the Go race detector: cold-start concurrency, 16 goroutines, poisoned pool, "
     "string stability, copies; hist stream: two processes executing the same calls in opposite orders). The determinism statements of Props/C14 section 4 are true by construction of the "
-    "translation (marked as such); the pool state machine is a hand-written model whose sequential core is proved equal to the regenerated v2 parser for every buffer (ParseTie.v20).",
+    "translation (marked as such); the pool state machine's steps are PROVED to be the regenerated loop bodies (Props/C14b.lean: a split-phase tick = one application of GenP20.split_for1, a loop-phase tick = "
+    "one application of GenP20.ParseVector_range1; stuttering simulation; schedule_independent_gen: every finished call's result = the regenerated ParseVector on any 14-slot buffer, in "
+    "particular on the buffer the thread actually held).",
     "trusted: sync.Pool contract (an object obtained by Get is not handed out again before Put) as the model's step rule; translator's state-fact extractor is syntactic "
     "(no alias/data-flow analysis); Go runtime for everything concurrent", _TECH + "; runtime part: stress testing under the race detector")
 LEVEL_TEXT["C15"] = _lt(
